@@ -158,7 +158,7 @@ def run(ck, tier):
     ck.proved(rule, "match_to_lint:source-through-matched-spans", "", "%d of %d match_to_lint bodies read `source` only through spans derived from (or helpers that also receive) the matched tokens" % (ok_n, len(impls)))
     _lexlocal(ck, p, byk)
     # shared rule instances
-    c05._key(c05._Sub(_only(ck, "chunk-cache:rebase"), "R-C12-rebase", ""), p, byk)
+    c05._key(c05._Sub(_only(ck, ("chunk-cache:rebase", "chunk-cache:get:chars", "chunk-cache:put:chars")), "R-C12-rebase", ""), p, byk)
     c02._condense(c05._Sub(ck, "R-C12-condense", ""), p, byk)
     c02._stale(c05._Sub(ck, "R-C12-stale", ""), p, byk)
 
